@@ -12,6 +12,7 @@ import ZwVerif.Props.C07
 import ZwVerif.Props.C08
 import ZwVerif.Props.C09
 import ZwVerif.Props.C10
+import ZwVerif.Props.C10Closure
 import ZwVerif.Props.C11
 import ZwVerif.Props.C12
 import ZwVerif.Props.C13
@@ -23,3 +24,4 @@ import ZwVerif.Props.C18
 import ZwVerif.Props.C19
 import ZwVerif.Props.C19Order
 import ZwVerif.Props.C20
+import ZwVerif.Props.C20Int
